@@ -74,6 +74,15 @@ def points(tier: str) -> List[Dict[str, Any]]:
                     for second in (X, XU):
                         pts.append({"delay": delay, "forced": None, "jitter": 0.0, "types": "a",
                                     "events": [(0, ("ptr", X, t1)), (gap, ("ptr", second, t2))]})
+    # pointers already cached when the browser is created (younger / older than half their TTL, shortly before it starts)
+    for delay in (1000, 10_000):
+        for pre in ([(30_000, ("ptr", X, 4500))], [(30_000, ("ptr", X, 1200))], [(1_000, ("ptr", X, 4500))],
+                    [(2_500_000, ("ptr", X, 4500))], [(600_000, ("ptr", X, 4500)), (30_000, ("ptr", Y, 4500))],
+                    [(30_000, ("ptr", X, 4500)), (30_000, ("ptr", Z, 4500))]):
+            for types in ("a", "ab"):
+                pts.append({"delay": delay, "forced": None, "jitter": 0.0, "types": types, "events": [], "pre": pre})
+                for e in ((20_000, ("ptr", Y, 4500)), (3_375_000 + 1000, ("ptr", X, 4500)), (40_000, ("ptr", X, 0))):
+                    pts.append({"delay": delay, "forced": None, "jitter": 0.0, "types": types, "events": [e], "pre": pre})
     return pts
 
 
@@ -105,15 +114,27 @@ def run_point(p: Dict[str, Any], verbose: bool = False) -> Tuple[Optional[Dict[s
         lst = Lst(w)
         types = [TA] if p["types"] == "a" else [TA, TB]
         forced = {None: None, "QU": DNSQuestionType.QU, "QM": DNSQuestionType.QM}[p["forced"]]
-        t_start = w.now_ms
-        br = AsyncServiceBrowser(zc, types, listener=lst, delay=delay, question_type=forced)
-        w.settle()
         # record intervals: alias -> list of [type, created, ttl, end(reason)]
         intervals: List[Dict[str, Any]] = []
         live: Dict[str, Dict[str, Any]] = {}
         n = 0
-        for gap, (kind, inst, ttl) in [tuple(e) for e in p["events"]]:
-            w.advance(gap)
+        # pointers the instance learned *before* the browser existed (another browser's traffic, a browser that was
+        # cancelled and created again): they are replayed to the new browser from the cache and need refreshing too
+        pre = sorted([tuple(e) for e in p.get("pre", [])], key=lambda e: -e[0])
+        base = w.now_ms
+        t_start = base + (pre[0][0] if pre else 0)
+        br = None
+        script = [(("pre", before), act) for before, act in pre] + [("start", (None, None, None))] + [tuple(e) for e in p["events"]]
+        for gap, (kind, inst, ttl) in script:
+            if gap == "start":
+                w.advance_to_ms(t_start)
+                br = AsyncServiceBrowser(zc, types, listener=lst, delay=delay, question_type=forced)
+                w.settle()
+                continue
+            if isinstance(gap, tuple):
+                w.advance_to_ms(t_start - gap[1])
+            else:
+                w.advance(gap)
             n += 1
             now = w.now_ms
             tname = TB if inst == Z else TA
